@@ -33,25 +33,17 @@ theorem nextState_mem (s : TraceSlider) (st : ExecutedState) (h : s.nextState.1 
 
 theorem setPositionAndLen_trace (s s' : TraceSlider) (p l : Nat) (h : s.setPositionAndLen p l = .ok s') : s'.trace = s.trace := by
   unfold TraceSlider.setPositionAndLen at h
+  dsimp only at h
   split at h
-  · simp only [bind, Res.bind, addU32] at h
-    split at h
-    · split at h
-      · cases h
-      · injection h with h; subst h; rfl
-    · cases h
-    · cases h
+  · cases h
   · injection h with h; subst h; rfl
 
 theorem setSubtraceLen_trace (s s' : TraceSlider) (l : Nat) (h : s.setSubtraceLen l = .ok s') : s'.trace = s.trace := by
   unfold TraceSlider.setSubtraceLen at h
-  simp only [bind, Res.bind, subU32] at h
+  dsimp only at h
   split at h
-  · split at h
-    · cases h
-    · injection h with h; subst h; rfl
   · cases h
-  · cases h
+  · injection h with h; subst h; rfl
 
 theorem nextStates_same (k : DataKeeper) : KeeperSame k (nextStates k).2.2 := by
   unfold nextStates
